@@ -17,7 +17,8 @@ Record chal := Chal {
   c_keyauth : str;
   c_is_ip : bool;          (* Identifier.Type == "ip" *)
   c_ident : str;           (* Identifier.Value *)
-  c_rev : option str       (* oracle: dns.ReverseAddr(Identifier.Value) when it succeeds (with trailing '.') *)
+  c_rev : option str       (* dns.ReverseAddr(Identifier.Value) when it succeeds (with trailing '.'):
+                              [rev_of_ip] of the identifier's address bytes *)
 }.
 
 Definition ctype_eqb (a b : ctype) : bool :=
@@ -43,6 +44,29 @@ Definition challenge_key (c : chal) : str :=
   | TTlsAlpn, true, Some r => removelast r
   | _, _, _ => c_ident c
   end.
+
+(** * dns.ReverseAddr: the reverse-mapping name of an address given by its bytes (4: IPv4 and
+    IPv4-mapped IPv6, 16: IPv6), with the trailing dot.  RFC 1035 3.5 / RFC 3596 2.5; RFC 8738 6
+    makes it the SNI of a TLS-ALPN-01 validation of an IP identifier. *)
+Definition digit (d : N) : N := 48 + d.
+Definition dec3 (n : N) : str :=
+  if n <? 10 then [digit n]
+  else if n <? 100 then [digit (n / 10); digit (n mod 10)]
+  else [digit (n / 100); digit ((n / 10) mod 10); digit (n mod 10)].
+Definition hexd (d : N) : N := if d <? 10 then 48 + d else 87 + d.
+Definition s_in_addr_arpa : str := [105; 110; 45; 97; 100; 100; 114; 46; 97; 114; 112; 97; 46].
+Definition s_ip6_arpa : str := [105; 112; 54; 46; 97; 114; 112; 97; 46].
+Definition v4_label (x : N) : str := dec3 x ++ [46].
+Definition v6_labels (x : N) : str := [hexd (x mod 16); 46; hexd (x / 16); 46].
+Definition rev_name (b : list N) : option str :=
+  match length b with
+  | 4%nat => Some (concat (map v4_label (rev b)) ++ s_in_addr_arpa)
+  | 16%nat => Some (concat (map v6_labels (rev b)) ++ s_ip6_arpa)
+  | _ => None
+  end.
+(** the oracle field [c_rev] of a challenge whose identifier has the address bytes [ip] *)
+Definition rev_of_ip (ip : option (list N)) : option str :=
+  match ip with Some b => rev_name b | None => None end.
 
 (** * net.SplitHostPort, hostOnly, challengeHost *)
 Definition c_colon : N := 58.
@@ -206,7 +230,7 @@ Section Sys.
 
   (** ** httphandlers.go *)
   Record hreq := HReq { h_method : str; h_path : str; h_host : str }.
-  Definition m_get : str := [71; 69; 84].
+  Definition m_get : str := c15_http_method.   (* "GET": translated from the comparisons with http.MethodGet *)
   Definition resource_path (c : chal) : str := acme_http_challenge_base_path ++ [c_slash] ++ c_token c.
 
   Definition looks_like_challenge (r : hreq) : bool :=
